@@ -956,7 +956,7 @@ theorem C10_open (P : Prims) (hP : PrimsOK P) (cfg : Config) (pw : Passwords) (r
       simp only [Config.encryptDict] at ha' ⊢
       rcases hm with h | h | h <;> subst h <;>
         simp [withCryptFilter, params234, hr, HANDLER_REGISTRY, openHandler.lookup', SUPPORTED_REVISIONS_V4,
-          buildCfm, getCfm, cfmName, lookup, hcf, nameV2, nameAESV2] at ha' ⊢ <;>
+          buildCfm, getCfm_eq, FORCED_LENGTH_V4, cfmName, lookup, hcf, nameV2, nameAESV2] at ha' ⊢ <;>
         simp [ha', hcf, lookup]
     · rcases hm with h | h | h <;> subst h <;> simp [Config.method, lookup, hcf]
   | v5 r p cfName em =>
@@ -973,7 +973,7 @@ theorem C10_open (P : Prims) (hP : PrimsOK P) (cfg : Config) (pw : Passwords) (r
       simp only [Config.encryptDict] at ha' ⊢
       rcases hr with h | h <;> subst h <;>
         simp [withCryptFilter, params56, HANDLER_REGISTRY, openHandler.lookup', SUPPORTED_REVISIONS_V5,
-          buildCfm, getCfm, cfmName, lookup, hcf, nameAESV3] at ha' ⊢ <;>
+          buildCfm, getCfm_eq, FORCED_LENGTH_V5, cfmName, lookup, hcf, nameAESV3] at ha' ⊢ <;>
         simp [ha', hcf, lookup]
     · simp [Config.method, lookup, hcf]
 
@@ -1263,8 +1263,7 @@ theorem openHandler_method (P : Prims) (prm : Params) (pw : List Nat) (h : Handl
         · exact Or.inl hid
         · right; left
           refine ⟨rfl, ?_⟩
-          unfold getCfm at hn
-          rw [if_pos h4] at hn
+          rw [getCfm_eq, if_pos h4] at hn
           split at hn
           · left; simpa using hn.symm
           · split at hn
@@ -1282,8 +1281,7 @@ theorem openHandler_method (P : Prims) (prm : Params) (pw : List Nat) (h : Handl
         · exact Or.inl hid
         · right; right
           refine ⟨rfl, ?_⟩
-          unfold getCfm at hn
-          rw [if_neg h4] at hn
+          rw [getCfm_eq, if_neg h4] at hn
           split at hn
           · simpa using hn.symm
           · simp at hn
@@ -1382,7 +1380,7 @@ theorem C10_open_of_authenticate (P : Prims) (cfg : Config) (pw : Passwords) (rn
       simp only [Config.authenticate, Config.encryptDict, Config.fileKey] at ha ⊢
       rcases hm with h | h | h <;> subst h <;>
         simp [withCryptFilter, params234, hr, HANDLER_REGISTRY, openHandler.lookup', SUPPORTED_REVISIONS_V4,
-          buildCfm, getCfm, cfmName, lookup, hcf, nameV2, nameAESV2] at ha ⊢ <;>
+          buildCfm, getCfm_eq, FORCED_LENGTH_V4, cfmName, lookup, hcf, nameV2, nameAESV2] at ha ⊢ <;>
         simp [ha, hcf, lookup]
     · rcases hm with h | h | h <;> subst h <;> simp [Config.method, lookup, hcf]
   | v5 r p cfName em =>
@@ -1395,7 +1393,7 @@ theorem C10_open_of_authenticate (P : Prims) (cfg : Config) (pw : Passwords) (rn
       simp only [Config.authenticate, Config.encryptDict, Config.fileKey] at ha ⊢
       rcases hr with h | h <;> subst h <;>
         simp [withCryptFilter, params56, HANDLER_REGISTRY, openHandler.lookup', SUPPORTED_REVISIONS_V5,
-          buildCfm, getCfm, cfmName, lookup, hcf, nameAESV3] at ha ⊢ <;>
+          buildCfm, getCfm_eq, FORCED_LENGTH_V5, cfmName, lookup, hcf, nameAESV3] at ha ⊢ <;>
         simp [ha, hcf, lookup]
     · simp [Config.method, lookup, hcf]
 
@@ -1555,5 +1553,30 @@ example : (Config.base 1 { r := 2, length := 40, p := -64, id0 := [9] }).ownerVa
     { userCps := List.replicate 32 65, user := List.replicate 32 65, owner := List.replicate 33 65 }
     { tail := [], fileKey := [], salts := ⟨[], [], [], []⟩ } (List.replicate 33 65) := by
   refine ⟨by decide, Or.inr (by decide)⟩
+
+/-! ## regenerated (round 6) tables and constants agree with the standard -/
+
+/-- **`get_cfm` (regenerated from pdfdocument.py on every run) is ISO 32000's CFM table**: the V4
+    handler maps V2 to RC4 and AESV2 to AES-128, the V5 handler AESV3 to AES-256; every other name
+    (including `None`, `Identity` as a CFM, and AESV3 under V4) is refused. -/
+theorem get_cfm_is_standard (cls : Nat) (name : Bytes) :
+    getCfm cls name =
+      if cls = 4 then
+        if name = nameV2 then some .rc4 else if name = nameAESV2 then some .aes128 else none
+      else
+        if name = nameAESV3 then some .aes256 else none :=
+  getCfm_eq cls name
+
+/-- the other regenerated constants of `init_params` / `decrypt` / `unpad_aes`: the built-in
+    Identity filter, the Metadata bypass, the forced key lengths, StrF as the one filter name, the
+    padding bounds -/
+theorem crypt_filter_constants :
+    BUILTIN_FILTER = (nameIdentity, "decrypt_identity") ∧ methodOfPy BUILTIN_FILTER.2 = some .identity ∧
+    atomMetadata = 47 :: BYPASS_TYPE ∧
+    FORCED_LENGTH_V4 = 128 ∧ FORCED_LENGTH_V5 = 256 ∧ DEFAULT_FILTER_ATTR = "strf" ∧
+    UNPAD_MIN = 1 ∧ UNPAD_MAX = 16 := by decide
+
+example : getCfm 4 nameAESV2 = some .aes128 ∧ getCfm 4 nameAESV3 = none ∧ getCfm 5 nameAESV3 = some .aes256 ∧
+    getCfm 5 nameV2 = none ∧ getCfm 4 nameIdentity = none := by decide
 
 end PdfVerif.Props.C10
